@@ -187,6 +187,13 @@ def run(ck: Check):
                                  f"not atoms of the split: {[p for p in got if p not in before_parts]!r} (atoms: {before_parts!r})",
                                  {"atom": atom, "data": data.hex(), "protected": list(prot), "lo": lo, "hi": hi})
     cli(ck, r)
+
+    def judge_sets(b, a, data, t, dumped, argv):
+        err = symbol_ok(t.parts, data, b, a) if b"".join(t.parts) == data else "the atoms do not concatenate to the file"
+        if err and not (set(b) & set(a)):
+            ck.violation(f"{' '.join(argv[1:4])!r}: every byte of a supplied delimiter string is a delimiter (here {b!r} / {a!r}): {err[:200]}; "
+                         f"atoms {t.parts!r}", {"argv": argv, "data": data.hex(), "parts": [p.hex() for p in t.parts]})
+    cli_text_sets(ck, judge_sets)
     collapse_keeps_sets(ck)
     sets_changed_between_loads(ck)
     model = run_model(cases, shards=8)
@@ -236,6 +243,44 @@ def cli(ck, r):
                                                                    known_overlap_cut_points(data, before, after)) else None,
                                  replay={"argv": ["-s", "--cut-before", before.decode(), "--cut-after", after.decode()],
                                   "data": data.hex(), "parts": [p.hex() for p in lith.testcase.parts]})
+    finally:
+        os.chdir(cwd)
+        shutil.rmtree(d, ignore_errors=True)
+
+
+def cli_text_sets(ck, judge):
+    """delimiter sets as the command line delivers them - TEXT: characters outside ASCII (every byte of their UTF-8
+    encoding is a delimiter), backslashes followed by letters (a backslash is a byte like any other), quotes, blanks.
+    judge(before_bytes, after_bytes, data, testcase, dumped) states the property"""
+    from lithium.reducer import Lithium
+    d = tempfile.mkdtemp(prefix="lv-", dir=SCRATCH_ROOT)
+    cwd = os.getcwd()
+    sets = [("\u00bb", ";"), ("", "\u00bb;\n"), ("\u3002", "\u3001"), ("\\n", ";"), ("", "\\n;"), ("\\t", ""), ("\\x41;", "]"),
+            ("\u00e9", "\u00e8"), ("\\", "\\"), ("'", '"'), (" ", "\t"), ("\\r\\n", ""), ("$", "^"), ("\\u00bb", "")]
+    datas = ["say \u00abhello\u00bb; then \u00abbye\u00bb;\nend\n".encode(), b"a\\nb;c\nd\\n;e", b"x\tA;y\\x41;z]w\\tq",
+             "\u30a2\u3002\u30a4\u3001\u30a6\u00a9\u00e9\u00e8".encode(), b"\xc2 lone \xbb\xc3\xa9 \\r\\n\r\n'q\" $^"]
+    try:
+        os.chdir(d)
+        with open("yes.py", "w") as f:
+            f.write("def interesting(a, p):\n    return True\n")
+        for before, after in sets:
+            for data in datas:
+                with open("t.txt", "wb") as f:
+                    f.write(data)
+                lith = Lithium()
+                ck.count("cli-text-sets")
+                ck.nontrivial(("cli-text-sets", before, after, data))
+                argv = ["-s", f"--cut-before={before}", "--cut-after", after, "yes.py", "t.txt"]
+                try:
+                    lith.process_args(argv)
+                    lith.testcase.dump()
+                    with open("t.txt", "rb") as f:
+                        dumped = f.read()
+                except BaseException as e:  # pylint: disable=broad-except
+                    ck.violation(f"--cut-before {before!r} --cut-after {after!r} on {data!r}: {type(e).__name__}: {e}",
+                                 {"argv": argv, "data": data.hex()})
+                    continue
+                judge(before.encode("utf-8", "surrogateescape"), after.encode("utf-8", "surrogateescape"), data, lith.testcase, dumped, argv)
     finally:
         os.chdir(cwd)
         shutil.rmtree(d, ignore_errors=True)
